@@ -26,6 +26,7 @@ type GenParams struct {
 	BindAnswerPct int     // % of binds whose Binding response is lost (applied, timeout returned) or that meet an unavailable apiserver
 	SlowBindCap   int     // at most this many such binds per history
 	Par           int     // histories executed concurrently (0 = 48)
+	RangesPct     int     // % of pod identities that request ip ranges (0 = the default 30), 1-3 range lists each
 }
 
 func DefaultParams() GenParams {
@@ -141,10 +142,17 @@ func allIPsOf(pools []Pool) []uint32 {
 }
 
 func (g *Gen) genRanges() string {
-	if len(g.allIPs) == 0 || g.rng.Intn(100) < 70 {
+	pct := g.p.RangesPct
+	if pct == 0 {
+		pct = 30
+	}
+	if len(g.allIPs) == 0 || g.rng.Intn(100) >= pct {
 		return "-"
 	}
 	n := 1 + g.rng.Intn(2)
+	if g.p.RangesPct != 0 {
+		n = 1 + g.rng.Intn(3)
+	}
 	var ls []string
 	for i := 0; i < n; i++ {
 		ip := g.allIPs[g.rng.Intn(len(g.allIPs))]
@@ -391,6 +399,7 @@ func (g *Gen) Next(w *World, step int) string {
 		add(0.25, func() string { return fmt.Sprintf("drop %d", i) })
 	}
 	add(3, func() string { g.needSync = false; return "sync all" })
+	add(0.6, func() string { return "fipsync" }) // the FloatingIP informer catches up (most reloads see a lagging cache)
 	add(0.7, func() string { return "sync pods" })
 	add(0.7, func() string { return "sync apps" })
 	add(2.5, func() string {
